@@ -200,6 +200,59 @@ CHECKS = {
         "substitution) are not covered.",
         technique="TLA+ exact NJ/UPGMA/count models (TLC) + spec->code replay on all entry points + code->spec join trace validation",
     ),
+    "C03": dict(
+        category="model_checking",
+        text="Alignment.tla defines every alignment/collection operation (slices incl. negative/over-the-end, index, rc, take_positions, "
+        "take_seqs, omit_gap_pos, no_degenerates, filtered, get_degapped_relative_to, sample with injected indices, +, to_type, "
+        "to_rna/to_dna, degap, deepcopy) on the matrix of cells; TLC checks Rectangular, NoCellInvented, RcInvolution and commutation "
+        "laws over all small layouts. Histories (paths of the transition graph) are executed in lock-step on real Alignment and "
+        "ArrayAlignment objects and names/to_dict/len/get_gapped_seq must equal the spec successor; 20 read-only methods are compared "
+        "with a fresh object built from the rows; seeded random executions (DNA/RNA/protein, up to 7 operations, arbitrary arguments) "
+        "are validated by Trace_Alignment.tla.",
+        design_ref="DESIGN.md section 2 / C03",
+        note="Trusted: TLC, harness instantiation of cell classes with concrete symbols. '?'/'.' gap symbols, annotations, add_seqs, "
+        "omit_gap_seqs/runs, new_alignment classes not covered; strided slices on Alignment raise by design (unsupported).",
+        technique="TLA+ cell-matrix model (TLC exhaustive) + history replay on both classes + code->spec trace validation",
+    ),
+    "C09": dict(
+        category="model_checking",
+        text="TreeOps.tla is a closed state machine over trees (parent map + edge lengths in half units) with newick/JSON/rich-dict round "
+        "trips, copy/deepcopy, sorted, rooted_at, rooted_with_tip, root_at_midpoint, unrooted, get_sub_tree over all tip subsets, prune, "
+        "bifurcating; TLC checks StepPreserves (tips, unrooted splits, all tip-to-tip path lengths), MidpointCentred, RerootLandsThere. "
+        "Every abstract tree (all shapes on <= 4 tips quick / <= 5 thorough + sampled 6) is rebuilt on real PhyloNodes for three name "
+        "classes (plain, quoting-needed, newick metacharacters) and results, receiver-unmodified and aliasing are judged. TreeDist.tla "
+        "defines RF / matching distances independently (set difference, minimum over bijections); all ordered pairs on 4 (5) tips are "
+        "compared. Recorded executions on random 7-12 tip trees are validated by TreeOpsTrace.tla.",
+        design_ref="DESIGN.md section 2 / C09",
+        note="Trusted: TLC, harness projection (tips, splits, get_distances). Non-dyadic branch lengths, keep_root=True, file write/load, "
+        "names starting and ending with a quote, Lin-Rajan-Moret on unequally resolved trees not covered.",
+        technique="TLA+ tree state machine + independent distance definitions (TLC) + spec->code replay + trace validation",
+    ),
+    "C12": dict(
+        category="model_checking",
+        text="GeneticCode.tla writes the 27 NCBI translation tables (standard table + per-code differences) and the IUPAC resolve/encode/"
+        "complement definitions independently of both copies in the repository; TLC checks RcInvolution, ComplementLaws, "
+        "EncodeResolveInverse, SixFrameLaw, StopLaws. All 64 codons x 27 codes, every base string up to length 6 (7) x frames x strands, "
+        "a stop-rich family x the stop-option matrix, sequence pairs and all IUPAC symbols/strings are fed to every entry point (old and "
+        "new GeneticCode, old/new DNA and RNA Sequence, collections/alignments, app.translate) and must agree with the spec.",
+        design_ref="DESIGN.md section 2 / C12",
+        note="Trusted: TLC and the transcription of the published NCBI/IUPAC tables in the spec. best_frame / select_translatable, gapped or "
+        "ambiguous codons, protein X, sequences longer than 7 not covered; slow entry points run on a seeded stratified sample of the long strings.",
+        technique="TLA+ table/translation model (TLC exhaustive) + spec->code replay on every entry point",
+    ),
+    "C17": dict(
+        category="model_checking",
+        text="AnnotDb.tla models the record list with the linear-scan oracle Matches (Within / Within-or-Overlaps), the 1-based closed to "
+        "0-based half-open conversion, and transcribes the SQL overlap clauses of _matching_conditions; TLC proves SqlAgrees over the "
+        "whole interval lattice plus QueryDistributesOverUnion, SubsetIdempotent. One-record databases over every span list x every "
+        "query combination x window kind, and histories closed under subset/union/update/deepcopy/pickle/json/write+open, are executed "
+        "on BasicAnnotationDb, GffAnnotationDb (via gff_parser text) and GenbankAnnotationDb; random call sequences are validated by "
+        "Trace_AnnotDb.tla.",
+        design_ref="DESIGN.md section 2 / C17",
+        note="Trusted: TLC, sqlite. on_alignment, strand=None, parent/child queries, update_record_spans, LIKE wildcards, empty windows with "
+        "allow_partial not covered.",
+        technique="TLA+ linear-scan oracle + transcribed SQL predicate (TLC) + spec->code replay on three db classes + trace validation",
+    ),
 }
 
 PENDING = {}
